@@ -99,6 +99,13 @@ def _mk_mem_class(approx):
         def close(self):
             self.closed = True
 
+        def __enter__(self):
+            return self
+
+        def __exit__(self, *exc):
+            self.close()
+            return False
+
     MemEKO.approx = approx
     return MemEKO
 
@@ -204,14 +211,18 @@ def case_product(log, d, err1, err2):
     _validate(log, d)
 
 
-def case_match(log, stored):
-    """matching of the second EKO's initial point: init scale m symbolic; `stored` = mu^2 values (nf=5) of the first EKO"""
+def case_match(log, stored, mode):
+    """matching of the second EKO's initial point, in place (mode 'inplace') or written to a new archive (mode 'path'):
+    initial scale m of the second EKO, rtol and atol all symbolic; `stored` = mu^2 values (nf=5) of the first EKO.
+    Both modes are held against the same formula, hence take the same accept / refuse decision and give the same product."""
     utils = sym_module("ekobox.utils")
     struct = sym_module("eko.io.struct")
     log.encode(utils.ekos_product, struct.EKO.approx)
     from eko.io.struct import Operator
 
     outcomes = {}
+    rk = {"stored": list(stored), "mode": mode}
+    sampler = _mk_sampler_m(stored)
 
     def run():
         DISK.clear()
@@ -220,33 +231,42 @@ def case_match(log, stored):
         struct.np = np_
         Mem = _mk_mem_class(struct.EKO.approx)
         utils.EKO = Mem
-        m = SR.var("m")
+        m, rtol, atol = SR.var("m"), SR.var("rtol"), SR.var("atol")
         assume(m, ">0")
+        assume(rtol, ">=0")
+        assume(atol, ">=0")
+        assume(1 - rtol, ">0")
         shape = (1, 1, 1, 1)  # 1x1 operators commute: the matching logic is checked independently of the contraction order
         As = [symarr("A%d" % i, shape) for i in range(len(stored))]
         ops = {(s, 5): Operator(As[i], None) for i, s in enumerate(stored)}
-        ops[(stored[0], 4)] = Operator(symarr("C", shape), None)  # same scale, other nf: must never match
+        Cop = symarr("C", shape)
+        ops[(stored[0], 4)] = Operator(Cop, None)  # same scale, other nf: must never match
         ini = Mem(ops, init=(1.0, 3))
         B = symarr("B", shape)
         fin = Mem({(900.0, 5): Operator(B, None)}, init=(m, 5))
         try:
-            utils.ekos_product(ini, fin, rtol=RTOL, atol=ATOL)
+            if mode == "path":
+                utils.ekos_product(ini, fin, rtol=rtol, atol=atol, path="copy.tar")
+            else:
+                utils.ekos_product(ini, fin, rtol=rtol, atol=atol)
             res = "ok"
         except ValueError as e:
             res = "multiple" if "Multiple" in str(e) else "nomatch"
-        zm = z3.Real("m")
+        zm, zr, za = z3.Real("m"), z3.Real("rtol"), z3.Real("atol")
         conds = []
         for s in stored:
-            tol = _fr(ATOL) + _fr(RTOL) * abs(_fr(s))
-            conds.append(z3.And(zm * zm - z3.RealVal(str(_fr(s))) <= z3.RealVal(str(tol)), z3.RealVal(str(_fr(s))) - zm * zm <= z3.RealVal(str(tol))))
+            zs = z3.RealVal(str(_fr(s)))
+            tol = za + zr * z3.RealVal(str(abs(_fr(s))))
+            conds.append(z3.And(zm * zm - zs <= tol, zs - zm * zm <= tol))
         cnt = z3.Sum([z3.If(c, 1, 0) for c in conds])
         goal = {"ok": cnt == 1, "multiple": cnt >= 2, "nomatch": cnt == 0}[res]
-        v = prove_formula(goal, "outcome '%s' iff %s stored point(s) of the same nf satisfy |m^2 - mu^2| <= atol + rtol*|mu^2| (rtol=%g, atol=%g as passed)"
-                          % (res, {"ok": "exactly one", "multiple": "two or more", "nomatch": "no"}[res], RTOL, ATOL))
-        decide(log, v, key="ekos_product:match", replay=(MOD, "replay_match", {"stored": list(stored)}), sampler=_sampler_m)
+        v = prove_formula(goal, "%s: outcome '%s' iff %s stored point(s) of the same nf satisfy |m^2 - mu^2| <= atol + rtol*|mu^2| with the rtol, atol passed by the caller (symbolic)"
+                          % (mode, res, {"ok": "exactly one", "multiple": "two or more", "nomatch": "no"}[res]))
+        decide(log, v, key="ekos_product:match", replay=(MOD, "replay_match", rk), sampler=sampler)
         outcomes[res] = outcomes.get(res, 0) + 1
+        target = DISK.get("copy.tar") if mode == "path" else ini
         if res == "ok":
-            got = ini.ops.get((900.0, 5))
+            got = target.ops.get((900.0, 5)) if target is not None else None
             # which stored operator was used: the one whose condition holds
             diffs = []
             for i, s in enumerate(stored):
@@ -255,16 +275,24 @@ def case_match(log, stored):
                 if r != "unsat":  # this stored point is the match on this path
                     diffs = [got.operator[j] - want_v[j] for j in rnp.ndindex(want_v.shape)] if got is not None else [SR(QONE)]
                     break
-            v = prove_all_zero(diffs or [SR(QONE)], "the operator at the matched point (same nf) is the one multiplied")
-            decide(log, v, key="ekos_product:matched-operator", replay=(MOD, "replay_match", {"stored": list(stored)}), sampler=_sampler_m)
+            v = prove_all_zero(diffs or [SR(QONE)], "%s: the product is (second).(operator stored at the matched point of the same nf)" % mode)
+            decide(log, v, key="ekos_product:matched-operator", replay=(MOD, "replay_match", rk), sampler=sampler)
+        # storage in either outcome: the first EKO is only extended in place and on success; with path it is never touched
+        untouched = list(ini.ops) == list(ops) and not ini.writes
+        if mode == "inplace":
+            okst = (list(ini.ops) == list(ops) + [(900.0, 5)] and ini.writes == [(900.0, 5)]) if res == "ok" else untouched
+        else:
+            okst = untouched and (res != "ok" or (target is not None and target.closed and list(target.ops) == list(ops) + [(900.0, 5)]))
+        v = prove_concrete(okst, "%s, outcome %s: %s" % (mode, res, "only the new target is added" if res == "ok" else "nothing is modified"))
+        decide(log, v, key="ekos_product:match-storage", replay=(MOD, "replay_match", rk), sampler=sampler)
         log.twin("domain")
         log.collect_ctx()
 
     _r, pm = explore(run)
     log.path_stats(pm)
-    need = {"ok", "nomatch"} | ({"multiple"} if len(stored) > 1 and abs(stored[0] - stored[1]) < 1 else set())
-    if not need <= set(outcomes):
-        log.inconclusive.append("match case %r: outcomes reached %r, expected %r" % (stored, sorted(outcomes), sorted(need)))
+    need = {"ok", "nomatch"} | ({"multiple"} if len(stored) > 1 else set())
+    if not need <= set(outcomes) and not log.violations:  # reachability guard (vacuity); pointless once a violation is established
+        log.inconclusive.append("match case %r (%s): outcomes reached %r, expected %r" % (stored, mode, sorted(outcomes), sorted(need)))
 
 
 def _validate(log, d):
@@ -297,8 +325,20 @@ def _sampler(rng):
     return {"seed": Fraction(rng.randint(1, 10**6))}
 
 
-def _sampler_m(rng):
-    return {"m": rnd(rng, 9.9, 10.1, den=100000)}
+def _mk_sampler_m(stored):
+    """candidate (m, rtol, atol): junction offsets between 1e-7 and a few 1e-3 relative, against tolerances from 1e-9 to 1e-2
+    (both sides of numpy's defaults rtol=1e-5/1e-6, atol=1e-8/1e-10)"""
+
+    def sampler(rng):
+        s = Fraction(rng.choice(stored))
+        delta = Fraction(rng.choice([1, -1]) * rng.choice([1, 3, 10, 100, 1000, 4000, 30000]), 10**7)
+        m2 = s * (1 + delta)
+        m = Fraction(float(m2) ** 0.5).limit_denominator(10**12)
+        rtol = Fraction(rng.choice([1, 1000, 10**4, 10**6, 10**7]), 10**9)
+        atol = Fraction(rng.choice([0, 0, 1, 10**6, 5 * 10**9]), 10**10)
+        return {"m": m, "rtol": rtol, "atol": atol}
+
+    return sampler
 
 
 # ---------------------------------------------------------------------------
@@ -407,19 +447,23 @@ def replay_product(point, d, err1, err2, what="order"):
         shutil.rmtree(tmp, ignore_errors=True)
 
 
-def replay_match(point, stored):
+def replay_match(point, stored, mode="inplace"):
+    """real ekos_product on two real EKOs, in place or into a new archive, with the caller's rtol/atol"""
     import pathlib
     import shutil
     import tempfile
 
+    from eko.io.struct import EKO
     from ekobox import utils
 
     m = getv(point, "m", None)
-    if m is None or m <= 0:
+    rtol, atol = getv(point, "rtol", RTOL), getv(point, "atol", ATOL)
+    if m is None or m <= 0 or not (0 <= rtol < 1) or atol < 0:
         return None
-    conds = [abs(m * m - s) <= ATOL + RTOL * abs(s) for s in stored]
-    if any(abs(abs(m * m - s) - (ATOL + RTOL * abs(s))) < 1e-9 * s for s in stored):
-        return None  # on the boundary: rounding decides
+    tols = [atol + rtol * abs(s) for s in stored]
+    conds = [abs(m * m - s) <= t for s, t in zip(stored, tols)]
+    if any(abs(abs(m * m - s) - t) < 1e-9 * s + 1e-3 * t for s, t in zip(stored, tols)):
+        return None  # on (or within rounding of) the boundary
     rng = rnp.random.default_rng(3)
     shape = (1, 1, 1, 1)
     As = [rng.normal(size=shape) for _ in stored]
@@ -429,20 +473,33 @@ def replay_match(point, stored):
         ops = {(s, 5): (As[i], None) for i, s in enumerate(stored)}
         ops[(stored[0], 4)] = (rng.normal(size=shape), None)
         ini, fin = _disk_ekos(tmp, (1, 2), ops, {(900.0, 5): (B, None)}, (m, 5))  # (x grid of the cards is irrelevant here)
+        before = sorted(ini)
         try:
-            utils.ekos_product(ini, fin, rtol=RTOL, atol=ATOL)
+            if mode == "path":
+                utils.ekos_product(ini, fin, rtol=rtol, atol=atol, path=tmp / "res.tar")
+            else:
+                utils.ekos_product(ini, fin, rtol=rtol, atol=atol)
             res = "ok"
         except ValueError as e:
             res = "multiple" if "Multiple" in str(e) else "nomatch"
         want = {0: "nomatch", 1: "ok"}.get(sum(conds), "multiple")
+        desc = "second EKO starts at m^2=%r, first EKO has mu^2 %r (nf=5), caller passes rtol=%g atol=%g, mode %s" % (m * m, stored, rtol, atol, "new archive (path=...)" if mode == "path" else "in place")
         if res != want:
-            return {"detail": "m=%r, stored mu^2 %r (nf=5), rtol=%g atol=%g: ekos_product outcome '%s', expected '%s'" % (m, stored, RTOL, ATOL, res, want)}
+            return {"detail": "%s: ekos_product outcome '%s', but |m^2 - mu^2| <= atol + rtol*|mu^2| holds for %d stored point(s) -> expected '%s'" % (desc, res, sum(conds), want)}
+        if mode == "path" and sorted(ini) != before:
+            return {"detail": "%s: the first EKO was modified" % desc}
         if res == "ok":
             i = conds.index(True)
-            got = ini[(900.0, 5)].operator
+            if mode == "path":
+                with EKO.read(tmp / "res.tar") as r:
+                    got = r[(900.0, 5)].operator
+            else:
+                got = ini[(900.0, 5)].operator
             w = rnp.einsum("ajbk,bkcl->ajcl", B, As[i])
             if rnp.abs(got - w).max() > 1e-8 * (1 + rnp.abs(w).max()):
-                return {"detail": "m=%r: product does not use the operator stored at the matched point %r" % (m, (stored[i], 5))}
+                return {"detail": "%s: product does not use the operator stored at the matched point %r" % (desc, (stored[i], 5))}
+        elif mode == "inplace" and sorted(ini) != before:
+            return {"detail": "%s: refused, but the first EKO was modified" % desc}
         return None
     finally:
         shutil.rmtree(tmp, ignore_errors=True)
@@ -455,7 +512,7 @@ def main():
     chk.bounds = ["operator tensors of shape (f,x,f,x) with (f,x) in {(1,1),(2,2)} (quick) / {(2,2),(3,2),(2,3),(4,2)} (thorough); all entries of both operators and both errors symbolic reals of either sign (non-commuting)",
                   "first EKO: 2 targets (one matched, nf=5; one other nf); second EKO: 3 targets of which 2 are new and 1 coincides with a target of the first",
                   "errors present/absent on either factor (4 combinations)",
-                  "matching: initial scale m>0 of the second EKO symbolic, stored mu^2 in {(100), (100, 100.4), (100, 400)} plus the same scale with another nf; rtol=1e-3, atol=0.5 passed explicitly"]
+                  "matching, in place and with path=...: initial scale m>0 of the second EKO, rtol in [0,1) and atol >= 0 all symbolic; stored mu^2 in {(100), (100, 100.4), (100, 400)} plus the same scale with another nf"]
     chk.out_of_claim = ["targets of the second EKO that already exist in the first one are skipped by ekos_product (kept as stored in the first EKO); for those the statement is not checked",
                         "on-disk copy (shutil/tar/lz4/npy) is modelled as an in-memory snapshot; the replay uses the real archive",
                         "floating-point rounding; theory/operator-card compatibility of the two EKOs (not checked by the code either)"]
@@ -469,9 +526,10 @@ def main():
                 continue
             chk.case("product.%dx%d.err%d%d" % (d[0], d[1], e1, e2), case_product, d=d, err1=e1, err2=e2)
     chk.case("product.1x1.err11", case_product, d=(1, 1), err1=True, err2=True)
-    chk.case("match.single", case_match, stored=[100.0])
-    chk.case("match.near-pair", case_match, stored=[100.0, 100.4])
-    chk.case("match.far-pair", case_match, stored=[100.0, 400.0])
+    for mode in ("inplace", "path"):
+        chk.case("match.single.%s" % mode, case_match, stored=[100.0], mode=mode)
+        chk.case("match.near-pair.%s" % mode, case_match, stored=[100.0, 100.4], mode=mode)
+        chk.case("match.far-pair.%s" % mode, case_match, stored=[100.0, 400.0], mode=mode)
     import ekobox.utils  # noqa: F401  imported before the workers fork
 
     try:
